@@ -228,11 +228,12 @@ struct C13 : vr::Driver {
   std::string tier_;
   int nTags = 2;
   int maxDepth = 4;
+  size_t nBases = 0;  // thorough: items [0, nBases) = 2 tags to fixpoint (depth <= 5), [nBases, 2 nBases) = 3 tags, every history of <= 3 operations
   std::string id() override { return "C13"; }
   void configure(const std::string& tier, uint64_t) override {
     tier_ = tier;
     bool th = tier == "thorough";
-    nTags = th ? 3 : 2;
+    nTags = 2;
     maxDepth = th ? 5 : 4;
     for (int a = 0; a < 8; a++)
       for (int b = 0; b < 8; b++) {
@@ -241,11 +242,18 @@ struct C13 : vr::Driver {
         if (!th && !(b == 0 || b == 2 || b == 6)) continue;
         bases.push_back({p1, p2});
       }
+    nBases = bases.size();
+    if (th) {
+      auto copy = bases;
+      for (auto& b : copy) bases.push_back(b);
+    }
   }
+  int tagsOf(size_t i) const { return i >= nBases ? 3 : 2; }
+  int depthOf(size_t i) const { return i >= nBases ? 3 : maxDepth; }
   size_t count() override { return bases.size(); }
   std::string describe(size_t i) override {
     auto pr = [](Perm p) { return std::string(p.det ? "d" : "-") + (p.act ? "a" : "-") + (p.disable ? "x" : "-"); };
-    return "base perms R1=" + pr(bases[i].first) + " R2=" + pr(bases[i].second) + " tags=" + std::to_string(nTags);
+    return "base perms R1=" + pr(bases[i].first) + " R2=" + pr(bases[i].second) + " tags=" + std::to_string(tagsOf(i)) + " histories<=" + std::to_string(depthOf(i));
   }
   std::string klass(size_t) override { return "dropin"; }
   void workerInit() override { sim::processInit(); }
@@ -409,6 +417,7 @@ struct C13 : vr::Driver {
     int depthMax = 0;
     bool capped = false;
     std::vector<Op> alphabet;
+    const int nTags = tagsOf(bi), maxDepth = depthOf(bi);
     for (int t = 0; t < nTags; t++) {
       for (int c = 0; c < C_NCONTENT; c++) alphabet.push_back({0, t, c});
       alphabet.push_back({1, t, 0});
@@ -481,7 +490,7 @@ struct C13 : vr::Driver {
   }
   Json::Value bounds() override {
     Json::Value b;
-    b["tags"] = nTags;
+    b["tags"] = tier_ == "thorough" ? "2 (to fixpoint, histories <= 5) and 3 (every history of <= 3 operations)" : "2";
     b["contents"] = (int)C_NCONTENT;
     b["max_history_length"] = maxDepth;
     b["base_permission_combinations"] = (int)bases.size();
